@@ -3,12 +3,16 @@
 package bftx
 
 import (
+	"bytes"
+	"crypto/sha256"
 	"fmt"
+	"sort"
 
 	"github.com/LiskHQ/lisk-engine/pkg/blockchain"
 	"github.com/LiskHQ/lisk-engine/pkg/consensus/liskbft"
 	"github.com/LiskHQ/lisk-engine/pkg/db"
 	"github.com/LiskHQ/lisk-engine/pkg/db/diffdb"
+	"github.com/LiskHQ/lisk-engine/pkg/labi"
 )
 
 // Addr returns the 20-byte address of abstract validator v (1-based).
@@ -72,6 +76,25 @@ func NewNode(batch, nval int, genesisHeight uint32) (*Node, error) {
 	return n, nil
 }
 
+// NewNodeWithModule is NewNode on a module that already exists: several stores (chain views of one fork tree) driven
+// through ONE liskbft.Module, as a node does when it reverts and re-applies blocks (C01).
+func NewNodeWithModule(m *liskbft.Module, nval int, genesisHeight uint32) (*Node, error) {
+	d, err := db.NewInMemoryDB()
+	if err != nil {
+		return nil, err
+	}
+	n := &Node{Mod: m, DB: d, NVal: nval}
+	n.Store = diffdb.New(d, statePrefix)
+	g := &blockchain.BlockHeader{Version: 0, Height: genesisHeight, PreviousBlockID: make([]byte, 32),
+		GeneratorAddress: make([]byte, 20), AggregateCommit: &blockchain.AggregateCommit{}}
+	g.Init()
+	n.PrevID = g.ID
+	if err := m.InitGenesisState(g.Readonly(), n.Store); err != nil {
+		return nil, err
+	}
+	return n, nil
+}
+
 func (n *Node) Close() { n.DB.Close() }
 
 // Flush commits the staged store to the database and reopens a fresh staged store, as the
@@ -104,17 +127,104 @@ func (n *Node) SetParams(pcT, certT uint64, w []uint64, gens []int) error {
 	return nil
 }
 
+// LV is one entry of the validator list an application hands to the engine (identity, BFT weight; weight 0 = standby
+// validator that only generates).
+type LV struct {
+	ID int
+	W  uint64
+}
+
+// SetParamsLabi does what the engine does with the application's answer (Executer.BFTAfterTransactionsExecute /
+// abi_caller): labi.Validators in the order given -> liskbft.GetBFTValidatorAndGenerators -> API.SetBFTParameters ->
+// API.SetGeneratorKeys.
+func (n *Node) SetParamsLabi(pcT, certT uint64, list []LV) error {
+	vals := labi.Validators{}
+	for _, e := range list {
+		vals = append(vals, &labi.Validator{Address: Addr(e.ID), BFTWeight: e.W, GeneratorKey: GenKey(e.ID), BLSKey: BLSKey(e.ID)})
+	}
+	bv, gens := liskbft.GetBFTValidatorAndGenerators(vals)
+	if err := n.Mod.API().SetBFTParameters(n.Store, pcT, certT, bv); err != nil {
+		return err
+	}
+	return n.Mod.API().SetGeneratorKeys(n.Store, gens)
+}
+
+// ValidatorsHashLIP computes the validators hash from the rule of LIP-0058 / LIP-0061 with a hand-written encoder (no code
+// of lisk-engine): SHA-256 of the Lisk-codec object {1: activeValidators (objects {1: blsKey bytes, 2: bftWeight uint64},
+// sorted by blsKey ascending), 2: certificateThreshold uint64}.
+func ValidatorsHashLIP(keys [][]byte, weights []uint64, certT uint64) []byte {
+	idx := make([]int, len(keys))
+	for i := range idx {
+		idx[i] = i
+	}
+	sort.SliceStable(idx, func(a, b int) bool { return bytes.Compare(keys[idx[a]], keys[idx[b]]) < 0 })
+	varint := func(b []byte, x uint64) []byte {
+		for x >= 0x80 {
+			b = append(b, byte(x)|0x80)
+			x >>= 7
+		}
+		return append(b, byte(x))
+	}
+	out := []byte{}
+	for _, i := range idx {
+		obj := []byte{0x0a} // field 1, wire type 2
+		obj = varint(obj, uint64(len(keys[i])))
+		obj = append(obj, keys[i]...)
+		obj = append(obj, 0x10) // field 2, wire type 0
+		obj = varint(obj, weights[i])
+		out = append(out, 0x0a)
+		out = varint(out, uint64(len(obj)))
+		out = append(out, obj...)
+	}
+	out = append(out, 0x10)
+	out = varint(out, certT)
+	h := sha256.Sum256(out)
+	return h[:]
+}
+
 type Hdr struct {
 	H, Gen, Mhg, Mhp uint32
 	AcH              uint32
 	AcNonEmpty       bool
+	// AcKind selects other shapes of the aggregate commit (0 = decided by AcNonEmpty as before):
+	// AcBitsOnly: aggregation bits without a signature; AcSigOnly: a signature without bits; AcNil: both slices nil.
+	AcKind int
+}
+
+const (
+	AcLegacy = iota
+	AcBitsOnly
+	AcSigOnly
+	AcNil
+)
+
+// AcShape tells which of the two byte fields of the aggregate commit of h are non-empty.
+func (h Hdr) AcShape() (bits, sig bool) {
+	switch h.AcKind {
+	case AcBitsOnly:
+		return true, false
+	case AcSigOnly:
+		return false, true
+	case AcNil:
+		return false, false
+	}
+	return h.AcNonEmpty, h.AcNonEmpty
 }
 
 func (n *Node) Header(h Hdr) *blockchain.BlockHeader {
 	ac := &blockchain.AggregateCommit{Height: h.AcH, AggregationBits: []byte{}, CertificateSignature: []byte{}}
-	if h.AcNonEmpty {
+	switch h.AcKind {
+	case AcBitsOnly:
 		ac.AggregationBits = []byte{1}
+	case AcSigOnly:
 		ac.CertificateSignature = make([]byte, 96)
+	case AcNil:
+		ac.AggregationBits, ac.CertificateSignature = nil, nil
+	default:
+		if h.AcNonEmpty {
+			ac.AggregationBits = []byte{1}
+			ac.CertificateSignature = make([]byte, 96)
+		}
 	}
 	hdr := &blockchain.BlockHeader{Version: 2, Height: h.H, PreviousBlockID: n.PrevID, GeneratorAddress: Addr(int(h.Gen)),
 		MaxHeightGenerated: h.Mhg, MaxHeightPrevoted: h.Mhp, AggregateCommit: ac, Timestamp: h.H * 10,
@@ -186,4 +296,48 @@ func (n *Node) Observe() (*Obs, error) {
 	o.PKeys = append(o.PKeys, d.ParamsHeights...)
 	o.GKeys = append(o.GKeys, d.GeneratorKeysHeights...)
 	return o, nil
+}
+
+// ObsAPI is the projection of the stored votes together with what API.GetBFTHeights answers, NOT compared with each
+// other here (the trace specification compares both with the model). ApiErr is non-empty when the votes store cannot be
+// decoded, or GetBFTHeights returns an error; the projection is then empty.
+type ObsAPI struct {
+	Obs
+	Api    []uint32
+	ApiErr string
+}
+
+func (n *Node) ObserveAPI() *ObsAPI {
+	o := &ObsAPI{Obs: Obs{Win: [][]uint64{}, VInfo: make([][]uint32, n.NVal), PKeys: []uint32{}, GKeys: []uint32{}}, Api: []uint32{0, 0, 0}}
+	for i := range o.VInfo {
+		o.VInfo[i] = []uint32{0, 0, 0}
+	}
+	a, b, c, err := n.Mod.API().GetBFTHeights(n.Store)
+	if err != nil {
+		o.ApiErr = "GetBFTHeights: " + err.Error()
+		return o
+	}
+	o.Api = []uint32{a, b, c}
+	d, err := liskbft.VerifDumpVotes(n.Store)
+	if err != nil {
+		o.ApiErr = "votes store: " + err.Error()
+		return o
+	}
+	o.Mhpv, o.Mhpc, o.Cert = d.MaxHeightPrevoted, d.MaxHeightPrecommited, d.MaxHeightCertified
+	for _, i := range d.Infos {
+		o.Win = append(o.Win, []uint64{uint64(i.Height), uint64(ValOf(i.Generator)), uint64(i.MaxHeightGenerated),
+			uint64(i.MaxHeightPrevoted), i.PrevoteWeight, i.PrecommitWeight})
+	}
+	for _, v := range d.Validators {
+		id := ValOf(v.Address)
+		if id < 1 || id > n.NVal {
+			// not an identity of this world: an extra entry, so that the projection cannot equal any model state
+			o.VInfo = append(o.VInfo, []uint32{1, v.MinActiveHeight, v.LargestHeightPrecommit})
+			continue
+		}
+		o.VInfo[id-1] = []uint32{1, v.MinActiveHeight, v.LargestHeightPrecommit}
+	}
+	o.PKeys = append(o.PKeys, d.ParamsHeights...)
+	o.GKeys = append(o.GKeys, d.GeneratorKeysHeights...)
+	return o
 }
